@@ -5099,7 +5099,11 @@ impl BytecodeVM {
                             // Try iterator protocol
                             match interp.collect_iterator_values(src_val) {
                                 Ok(Some(values)) => values,
-                                Ok(None) => Vec::new(),
+                                Ok(None) => {
+                                    return Err(JsError::type_error(
+                                        "Spread syntax requires an iterable object",
+                                    ));
+                                }
                                 Err(e) => return Err(e),
                             }
                         }
@@ -5109,7 +5113,12 @@ impl BytecodeVM {
                         .chars()
                         .map(|c| JsValue::String(JsString::from(c.to_string())))
                         .collect(),
-                    _ => Vec::new(),
+                    // undefined, null, numbers, booleans and symbols are not iterable
+                    _ => {
+                        return Err(JsError::type_error(
+                            "Spread syntax requires an iterable value",
+                        ));
+                    }
                 };
 
                 // Append elements to the destination array
